@@ -286,7 +286,8 @@ fn inline_helpers(orig: &SourceFile, func: &str, closure: Option<usize>, lift: &
         if is_method != has_recv && is_method { break; }
         if !is_method && has_recv { let (a0s, a0e) = args[0]; if src.text[a0s..a0e].trim() != "self" { break; } }
         if explicit.len() != params.len() { break; }
-        let mut t = String::from("{ ");
+        // (parenthesised: a bare block is not allowed everywhere an expression is, e.g. before the `else` of a `let .. else`)
+        let mut t = String::from("({ ");
         // `R.h(..)` with a receiver other than `self`: only for `&self` / `&mut self` helpers of a non-generic type, `self` becomes `self__`
         let mut self_alias = false;
         if let Some((rs, re)) = recv_span {
@@ -306,7 +307,7 @@ fn inline_helpers(orig: &SourceFile, func: &str, closure: Option<usize>, lift: &
             t.push_str(&if self_alias { replace_word(&st_txt, "self", "self__") } else { st_txt });
             t.push(' ');
         }
-        t.push('}');
+        t.push_str("})");
         // the call may span several lines: keep the line structure of the file (the replacement goes on the first line of the call)
         let newlines = src.text[cs..ce].matches('\n').count();
         let mut text = String::with_capacity(src.text.len() + t.len());
@@ -731,6 +732,10 @@ impl<'a> Rewriter<'a> {
             self.edit(ws, we, "format_shim()".to_string(), 0);
             return;
         }
+        if name == "matches" {
+            // `matches!(e, pat)` is in the verifier's dialect as it is
+            return;
+        }
         die(&format!("{}:{}: unsupported macro {}!", self.src.rel, self.src.line_of(ws), name));
     }
 
@@ -1135,6 +1140,13 @@ impl<'a, 'ast> Visit<'ast> for Rewriter<'a> {
                         self.spec.func
                     )),
                 }
+            }
+            Expr::Match(mm) if mm.arms.iter().any(|a| a.guard.is_some()) => {
+                // the installed Verus is incomplete on `match` arms with an `if` guard over `&mut` state (a trivially correct function fails:
+                // see DESIGN.md 9), so a failure in a function that contains one proves nothing
+                let (s0, _) = self.src.range(mm.span());
+                self.unmodelled_closures += 1;
+                self.notes.push(format!("match with a guarded arm at {}:{}: the verifier is incomplete on guards (failures in this function are not believed)", self.src.rel, self.src.line_of(s0)));
             }
             Expr::Async(a) => {
                 // R24: an `async` block that is not the one being lifted is a value: nothing inside it runs when the enclosing function
